@@ -82,6 +82,7 @@ REG = {
             "the governing privilege per request class is fixed by the reference table coq/Auth/GuardSpec.v (from the protocol document's Access lines and the property text; spec/privileges.md)",
             "the decision model is 'all governing bits held'; handler bodies are not modelled in Coq: the tie between each handler and its decision is the translator (which Access constants each handler tests) plus the bit-sweep correspondence on the real handlers",
             "effects of PERMITTED requests are the subject of the other properties; here a refusal is checked to be pure (one error reply, nothing queued, no file/account/news/ban change)",
+            "batched account edits (Auth/Batch.v): an UpdateUser transaction's sub-records are judged and applied in order, each against the account table left by the earlier ones; deleting a login that does not exist ends the batch without a reply; a refused batch keeps the earlier edits (each held its own privilege); tied to HandleUpdateUser by op 4 of the correspondence on the real YAMLAccountManager",
             "upload-folder / drop-box rules: the special folders are recognised by name ('upload', 'drop box', ASCII case-insensitive) on the last component of the directory the path field resolves to (Lib/Path.v sub_of = ReadPath's join); path probes observe the effect itself (drop-box content in the reply, destination of a granted upload)",
         ],
         "trusted_base": ["translator: Gen/Handlers.v (handler_guards, registered)", "reference tables Auth/GuardSpec.v transcribed by hand", "Lib/Path.v model of filepath.Join/Clean (tied to the code by C07's correspondence)"],
